@@ -6,6 +6,7 @@
   `apply_transform` and of the rule-block corpora (DESIGN section 8, C03).   No Mathlib.
 -/
 import GasolVerif.Proofs.WordLemmas
+import GasolVerif.Evm
 import GasolVerif.Generated.Globals
 namespace GasolVerif.RuleTable
 open GasolVerif Word
@@ -19,66 +20,66 @@ def M : Word := BitVec.allOnes 256
 
 def certs : List Cert :=
   [ -- local rules (apply_transform); a constant may stand on either side of a commutative operation
-    ⟨"ADD(X,0)", ∀ x, add 0#256 x = x ∧ add x 0#256 = x, fun x => ⟨add_zero_left x, by rw [add_comm', add_zero_left]⟩⟩,
-    ⟨"AND(X,0)", ∀ x, and 0#256 x = 0#256 ∧ and x 0#256 = 0#256, fun x => ⟨and_zero_left x, by rw [and_comm', and_zero_left]⟩⟩,
-    ⟨"AND(X,2^256-1)", ∀ x, and M x = x ∧ and x M = x, fun x => ⟨and_max_left x, by rw [and_comm']; exact and_max_left x⟩⟩,
-    ⟨"AND(X,X)", ∀ x, and x x = x, and_self⟩,
-    ⟨"EQ(X,X)", ∀ x, eq x x = 1#256, eq_self⟩,
-    ⟨"EXP(1,X)", ∀ x, exp 1#256 x = 1#256, one_exp⟩,
-    ⟨"EXP(X,0)", ∀ x, exp x 0#256 = 1#256, exp_zero⟩,
-    ⟨"EXP(X,1)", ∀ x, exp x 1#256 = x, exp_one⟩,
-    ⟨"GT(0,X)", ∀ x, gt 0#256 x = 0#256, gt_zero_left⟩,
+    ⟨"ADD(X,0)", ∀ x : Word, add 0#256 x = x ∧ add x 0#256 = x, fun x => ⟨add_zero_left x, by rw [add_comm', add_zero_left]⟩⟩,
+    ⟨"AND(X,0)", ∀ x : Word, and 0#256 x = 0#256 ∧ and x 0#256 = 0#256, fun x => ⟨and_zero_left x, by rw [and_comm', and_zero_left]⟩⟩,
+    ⟨"AND(X,2^256-1)", ∀ x : Word, and M x = x ∧ and x M = x, fun x => ⟨and_max_left x, by rw [and_comm']; exact and_max_left x⟩⟩,
+    ⟨"AND(X,X)", ∀ x : Word, and x x = x, and_self⟩,
+    ⟨"EQ(X,X)", ∀ x : Word, eq x x = 1#256, eq_self⟩,
+    ⟨"EXP(1,X)", ∀ x : Word, exp 1#256 x = 1#256, one_exp⟩,
+    ⟨"EXP(X,0)", ∀ x : Word, exp x 0#256 = 1#256, exp_zero⟩,
+    ⟨"EXP(X,1)", ∀ x : Word, exp x 1#256 = x, exp_one⟩,
+    ⟨"GT(0,X)", ∀ x : Word, gt 0#256 x = 0#256, gt_zero_left⟩,
     ⟨"ISZ(0)", iszero 0#256 = 1#256, by decide⟩,
     ⟨"ISZ(1)", iszero 1#256 = 0#256, by decide⟩,
-    ⟨"LT(X,0)", ∀ x, lt x 0#256 = 0#256, lt_zero_right⟩,
-    ⟨"MOD(X,0)", ∀ x, mod x 0#256 = 0#256, mod_zero⟩,
-    ⟨"MOD(X,1)", ∀ x, mod x 1#256 = 0#256, mod_one⟩,
-    ⟨"MOD(X,X)", ∀ x, mod x x = 0#256, mod_self⟩,
-    ⟨"MUL(X,0)", ∀ x, mul 0#256 x = 0#256 ∧ mul x 0#256 = 0#256, fun x => ⟨mul_zero_left x, by rw [mul_comm', mul_zero_left]⟩⟩,
-    ⟨"MUL(X,1)", ∀ x, mul 1#256 x = x ∧ mul x 1#256 = x, fun x => ⟨mul_one_left x, by rw [mul_comm', mul_one_left]⟩⟩,
-    ⟨"NOT(X)", ∀ x, not (not x) = x, not_not⟩,      -- the name of the fold of NOT on a constant; as an identity: an involution
-    ⟨"OR(X,0)", ∀ x, or 0#256 x = x ∧ or x 0#256 = x, fun x => ⟨or_zero_left x, by rw [or_comm', or_zero_left]⟩⟩,
-    ⟨"OR(X,X)", ∀ x, or x x = x, or_self⟩,
-    ⟨"SUB(X,0)", ∀ x, sub x 0#256 = x, sub_zero⟩,
-    ⟨"SUB(X,X)", ∀ x, sub x x = 0#256, sub_self⟩,
-    ⟨"XOR(X,0)", ∀ x, xor 0#256 x = x ∧ xor x 0#256 = x, fun x => ⟨xor_zero_left x, by rw [xor_comm', xor_zero_left]⟩⟩,
-    ⟨"XOR(X,X)", ∀ x, xor x x = 0#256, xor_self⟩,
+    ⟨"LT(X,0)", ∀ x : Word, lt x 0#256 = 0#256, lt_zero_right⟩,
+    ⟨"MOD(X,0)", ∀ x : Word, mod x 0#256 = 0#256, mod_zero⟩,
+    ⟨"MOD(X,1)", ∀ x : Word, mod x 1#256 = 0#256, mod_one⟩,
+    ⟨"MOD(X,X)", ∀ x : Word, mod x x = 0#256, mod_self⟩,
+    ⟨"MUL(X,0)", ∀ x : Word, mul 0#256 x = 0#256 ∧ mul x 0#256 = 0#256, fun x => ⟨mul_zero_left x, by rw [mul_comm', mul_zero_left]⟩⟩,
+    ⟨"MUL(X,1)", ∀ x : Word, mul 1#256 x = x ∧ mul x 1#256 = x, fun x => ⟨mul_one_left x, by rw [mul_comm', mul_one_left]⟩⟩,
+    ⟨"NOT(X)", ∀ x : Word, not (not x) = x, not_not⟩,      -- the name of the fold of NOT on a constant; as an identity: an involution
+    ⟨"OR(X,0)", ∀ x : Word, or 0#256 x = x ∧ or x 0#256 = x, fun x => ⟨or_zero_left x, by rw [or_comm', or_zero_left]⟩⟩,
+    ⟨"OR(X,X)", ∀ x : Word, or x x = x, or_self⟩,
+    ⟨"SUB(X,0)", ∀ x : Word, sub x 0#256 = x, sub_zero⟩,
+    ⟨"SUB(X,X)", ∀ x : Word, sub x x = 0#256, sub_self⟩,
+    ⟨"XOR(X,0)", ∀ x : Word, xor 0#256 x = x ∧ xor x 0#256 = x, fun x => ⟨xor_zero_left x, by rw [xor_comm', xor_zero_left]⟩⟩,
+    ⟨"XOR(X,X)", ∀ x : Word, xor x x = 0#256, xor_self⟩,
     -- names built with the opcode at hand: every opcode the branch serves
-    ⟨"{opcode}(0,X)", ∀ x, shl 0#256 x = x ∧ shr 0#256 x = x, fun x => ⟨shl_zero_left x, shr_zero_left x⟩⟩,
-    ⟨"{opcode}(X,0)", ∀ x, div x 0#256 = 0#256 ∧ div 0#256 x = 0#256 ∧ sdiv x 0#256 = 0#256 ∧ sdiv 0#256 x = 0#256 ∧ shl x 0#256 = 0#256 ∧ shr x 0#256 = 0#256,
+    ⟨"{opcode}(0,X)", ∀ x : Word, shl 0#256 x = x ∧ shr 0#256 x = x, fun x => ⟨shl_zero_left x, shr_zero_left x⟩⟩,
+    ⟨"{opcode}(X,0)", ∀ x : Word, div x 0#256 = 0#256 ∧ div 0#256 x = 0#256 ∧ sdiv x 0#256 = 0#256 ∧ sdiv 0#256 x = 0#256 ∧ shl x 0#256 = 0#256 ∧ shr x 0#256 = 0#256,
       fun x => ⟨div_zero x, zero_div x, sdiv_zero x, zero_sdiv x, shl_zero_right x, shr_zero_right x⟩⟩,
-    ⟨"{opcode}(X,1)", ∀ x, div x 1#256 = x ∧ sdiv x 1#256 = x, fun x => ⟨div_one x, sdiv_one x⟩⟩,
-    ⟨"{opcode}(X,X)", ∀ x, gt x x = 0#256 ∧ lt x x = 0#256 ∧ sgt x x = 0#256 ∧ slt x x = 0#256, fun x => ⟨gt_self x, lt_self x, sgt_self x, slt_self x⟩⟩,
+    ⟨"{opcode}(X,1)", ∀ x : Word, div x 1#256 = x ∧ sdiv x 1#256 = x, fun x => ⟨div_one x, sdiv_one x⟩⟩,
+    ⟨"{opcode}(X,X)", ∀ x : Word, gt x x = 0#256 ∧ lt x x = 0#256 ∧ sgt x x = 0#256 ∧ slt x x = 0#256, fun x => ⟨gt_self x, lt_self x, sgt_self x, slt_self x⟩⟩,
     -- contextual rules (apply_cond_transformation)
     ⟨"AND(ADDRESS,2^160)", ∀ (e : Env), e.wf → ∀ tr, (e.env0 "ADDRESS" tr) &&& addrMask = e.env0 "ADDRESS" tr, fun e we tr => we.addr160 "ADDRESS" (by simp) tr⟩,
     ⟨"AND(ORIGIN,2^160-1)", ∀ (e : Env), e.wf → ∀ tr, (e.env0 "ORIGIN" tr) &&& addrMask = e.env0 "ORIGIN" tr ∧ (e.env0 "CALLER" tr) &&& addrMask = e.env0 "CALLER" tr,
       fun e we tr => ⟨we.addr160 "ORIGIN" (by simp) tr, we.addr160 "CALLER" (by simp) tr⟩⟩,
-    ⟨"AND(SHL(X,Y), SHL(X,Z))", ∀ s y z, and (shl s y) (shl s z) = shl s (and y z), and_shl_shl⟩,
-    ⟨"AND(X,AND(X,Y))", ∀ p q, and p (and p q) = and p q ∧ and q (and p q) = and p q, fun p q => ⟨and_and_left p q, and_and_right p q⟩⟩,
-    ⟨"AND(X,NOT(X))", ∀ x, and x (not x) = 0#256 ∧ and (not x) x = 0#256, fun x => ⟨and_not_self x, not_and_self x⟩⟩,
-    ⟨"AND(X,OR(X,Y))", ∀ p q, and p (or p q) = p ∧ and q (or p q) = q, fun p q => ⟨and_or_left p q, and_or_right p q⟩⟩,
+    ⟨"AND(SHL(X,Y), SHL(X,Z))", ∀ s y z : Word, and (shl s y) (shl s z) = shl s (and y z), and_shl_shl⟩,
+    ⟨"AND(X,AND(X,Y))", ∀ p q : Word, and p (and p q) = and p q ∧ and q (and p q) = and p q, fun p q => ⟨and_and_left p q, and_and_right p q⟩⟩,
+    ⟨"AND(X,NOT(X))", ∀ x : Word, and x (not x) = 0#256 ∧ and (not x) x = 0#256, fun x => ⟨and_not_self x, not_and_self x⟩⟩,
+    ⟨"AND(X,OR(X,Y))", ∀ p q : Word, and p (or p q) = p ∧ and q (or p q) = q, fun p q => ⟨and_or_left p q, and_or_right p q⟩⟩,
     ⟨"BALANCE(ADDRESS)", ∀ (e : Env), e.wf → ∀ tr, e.env1 "BALANCE" tr (e.env0 "ADDRESS" tr) = e.env0 "SELFBALANCE" tr, fun e we tr => we.selfbal tr⟩,
-    ⟨"DIV(X,SHL(Y,1))", ∀ x y, div x (shl y 1#256) = shr y x, div_shl_one⟩,
-    ⟨"EQ(0,X)", ∀ x, eq 0#256 x = iszero x, eq_zero_left⟩,
+    ⟨"DIV(X,SHL(Y,1))", ∀ x y : Word, div x (shl y 1#256) = shr y x, div_shl_one⟩,
+    ⟨"EQ(0,X)", ∀ x : Word, eq 0#256 x = iszero x, eq_zero_left⟩,
     ⟨"EQ(1,ISZ(X))", ∀ b : Bool, eq 1#256 (ofBool b) = ofBool b, eq_one_ofBool⟩,
-    ⟨"EXP(0,X)", ∀ x, exp 0#256 x = iszero x, zero_exp⟩,
-    ⟨"EXP(2,X)", ∀ x, exp 2#256 x = shl x 1#256, two_exp⟩,
-    ⟨"GT(1,X)", ∀ x, gt 1#256 x = iszero x, gt_one_left⟩,
-    ⟨"ISZ(GT(X,0))", ∀ x, iszero (gt x 0#256) = iszero x, iszero_gt_zero⟩,
+    ⟨"EXP(0,X)", ∀ x : Word, exp 0#256 x = iszero x, zero_exp⟩,
+    ⟨"EXP(2,X)", ∀ x : Word, exp 2#256 x = shl x 1#256, two_exp⟩,
+    ⟨"GT(1,X)", ∀ x : Word, gt 1#256 x = iszero x, gt_one_left⟩,
+    ⟨"ISZ(GT(X,0))", ∀ x : Word, iszero (gt x 0#256) = iszero x, iszero_gt_zero⟩,
     ⟨"ISZ(ISZ(EQ(X,Y)))", ∀ b : Bool, iszero (iszero (ofBool b)) = ofBool b, iszero_iszero_ofBool⟩,
-    ⟨"ISZ(ISZ(ISZ(X)))", ∀ x, iszero (iszero (iszero x)) = iszero x, iszero_iszero_iszero⟩,
+    ⟨"ISZ(ISZ(ISZ(X)))", ∀ x : Word, iszero (iszero (iszero x)) = iszero x, iszero_iszero_iszero⟩,
     ⟨"ISZ(ISZ({opcode}(X,Y)))", ∀ b : Bool, iszero (iszero (ofBool b)) = ofBool b, iszero_iszero_ofBool⟩,
-    ⟨"ISZ(LT(0,X))", ∀ x, iszero (lt 0#256 x) = iszero x, iszero_lt_zero⟩,
-    ⟨"ISZ(SUB(X,Y))", ∀ x y, iszero (sub x y) = eq x y, iszero_sub⟩,
-    ⟨"ISZ(XOR(X,Y))", ∀ x y, iszero (xor x y) = eq x y, iszero_xor⟩,
-    ⟨"LT(X,1)", ∀ x, lt x 1#256 = iszero x, lt_one_right⟩,
-    ⟨"MUL(SHL(X,1),Y)", ∀ x y, mul (shl y 1#256) x = shl y x, shl_one_mul⟩,
-    ⟨"MUL(X,SHL(Y,1)", ∀ x y, mul x (shl y 1#256) = shl y x, mul_shl_one⟩,
-    ⟨"NOT(NOT(X))", ∀ x, not (not x) = x, not_not⟩,
-    ⟨"OR(OR(X,Y),Y)", ∀ p q, or (or p q) q = or p q ∧ or (or p q) p = or p q, fun p q => ⟨or_or_right' p q, or_or_left' p q⟩⟩,
-    ⟨"OR(X,AND(X,Y))", ∀ p q, or p (and p q) = p ∧ or q (and p q) = q, fun p q => ⟨or_and_left p q, or_and_right p q⟩⟩,
-    ⟨"OR(X,NOT(X))", ∀ x, or x (not x) = M ∧ or (not x) x = M, fun x => ⟨or_not_self x, not_or_self x⟩⟩,
-    ⟨"XOR(X,XOR(X,Y))", ∀ p q, xor p (xor p q) = q ∧ xor q (xor p q) = p, fun p q => ⟨xor_xor_left p q, xor_xor_right p q⟩⟩ ]
+    ⟨"ISZ(LT(0,X))", ∀ x : Word, iszero (lt 0#256 x) = iszero x, iszero_lt_zero⟩,
+    ⟨"ISZ(SUB(X,Y))", ∀ x y : Word, iszero (sub x y) = eq x y, iszero_sub⟩,
+    ⟨"ISZ(XOR(X,Y))", ∀ x y : Word, iszero (xor x y) = eq x y, iszero_xor⟩,
+    ⟨"LT(X,1)", ∀ x : Word, lt x 1#256 = iszero x, lt_one_right⟩,
+    ⟨"MUL(SHL(X,1),Y)", ∀ x y : Word, mul (shl y 1#256) x = shl y x, shl_one_mul⟩,
+    ⟨"MUL(X,SHL(Y,1)", ∀ x y : Word, mul x (shl y 1#256) = shl y x, mul_shl_one⟩,
+    ⟨"NOT(NOT(X))", ∀ x : Word, not (not x) = x, not_not⟩,
+    ⟨"OR(OR(X,Y),Y)", ∀ p q : Word, or (or p q) q = or p q ∧ or (or p q) p = or p q, fun p q => ⟨or_or_right' p q, or_or_left' p q⟩⟩,
+    ⟨"OR(X,AND(X,Y))", ∀ p q : Word, or p (and p q) = p ∧ or q (and p q) = q, fun p q => ⟨or_and_left p q, or_and_right p q⟩⟩,
+    ⟨"OR(X,NOT(X))", ∀ x : Word, or x (not x) = M ∧ or (not x) x = M, fun x => ⟨or_not_self x, not_or_self x⟩⟩,
+    ⟨"XOR(X,XOR(X,Y))", ∀ p q : Word, xor p (xor p q) = q ∧ xor q (xor p q) = p, fun p q => ⟨xor_xor_left p q, xor_xor_right p q⟩⟩ ]
 
 open Generated in
 /-- every rule the code names has a certificate: an identity on all 256-bit operands with its proof -/
